@@ -185,6 +185,8 @@ def run_chunk(chunk):
 CFG = (
     '[bumpver]\ncurrent_version = "{v}"\nversion_pattern = "{p}"\n\n[bumpver.file_patterns]\n'
     '"bumpver.toml" = [\'current_version = "{{version}}"\']\n"a.txt" = ["ver={{version}};", "pep={{pep440_version}};"]\n'
+    # (both placeholders inside ONE search pattern, as in a download URL)
+    '"c.txt" = ["get/{{version}}/demo-{{pep440_version}}.tgz"]\n'
 )
 
 
@@ -203,7 +205,8 @@ def cli_check(st, pat):
         if prev is not None and prev[0] != v:
             ov, ow = prev
             world.clear_dir(".")
-            world.write_tree({"bumpver.toml": CFG.format(v=ov, p=pat.text).encode(), "a.txt": f"ver={ov};\npep={ow};\n".encode()})
+            world.write_tree({"bumpver.toml": CFG.format(v=ov, p=pat.text).encode(), "a.txt": f"ver={ov};\npep={ow};\n".encode(),
+                              "c.txt": f"get/{ov}/demo-{ow}.tgz\n".encode()})
             o = world.cli("update", "--no-fetch", "--ignore-vcs-tag", "--set-version", v)
             st.evaluations += 1
             st.transitions += 1
@@ -219,11 +222,24 @@ def cli_check(st, pat):
                     ok = written is not None and pv.Version(written) == pv.Version(v) and normal_form_problem(written, pv.Version(v)) is None
                 except pv.InvalidVersion:
                     ok = False
+                cbody = world.read_tree(".")["c.txt"].decode("utf-8", "replace")
+                mc_ = re.fullmatch(r"get/(.*)/demo-(.*)\.tgz\n", cbody)
+                try:
+                    okc = bool(mc_) and mc_.group(1) == v and pv.Version(mc_.group(2)) == pv.Version(v) and normal_form_problem(mc_.group(2), pv.Version(v)) is None
+                except pv.InvalidVersion:
+                    okc = False
+                if not okc:
+                    st.violation(f"C15:file-written-by-update:both-placeholders-in-one-pattern:{shape}", case, {"file": cbody, "expected_pep440": w})
+                    st.outcomes["violation"] += 1
                 if not ok or (m and m.group(1) != v):
                     st.violation(f"C15:file-written-by-update:{shape}", case, {"file": body, "expected_pep440": w})
                     st.outcomes["violation"] += 1
                 else:
                     st.outcomes["cli-update-ok"] += 1
+            elif "No match for pattern" in o.logtext("ERROR") or "No patterns matched" in o.logtext("ERROR") or o.crashed:
+                # the files were written from the same renderings: a search pattern that does not find them does not accept its own text
+                st.outcomes["violation"] += 1
+                st.violation(f"C15:search-pattern-does-not-find-the-correctly-written-text:{shape}", case, {"log": o.log[-3:], "crashed": o.crashed})
             else:
                 st.outcomes["cli-update-refused(not greater / gate)"] += 1
                 st.observe((pat.text, ov, v, o.exit))
@@ -244,7 +260,8 @@ def cli_check(st, pat):
                 from .. import fakevcs
 
                 world.clear_dir(".")
-                world.write_tree({"bumpver.toml": CFG.format(v=ov, p=pat.text).encode(), "a.txt": f"ver={ov};\npep={ow};\n".encode()})
+                world.write_tree({"bumpver.toml": CFG.format(v=ov, p=pat.text).encode(), "a.txt": f"ver={ov};\npep={ow};\n".encode(),
+                                  "c.txt": f"get/{ov}/demo-{ow}.tgz\n".encode()})
                 os.mkdir(".git")
                 fakevcs.install(fakevcs.FakeVCS("git", tags_all=[ov, v], tags_merged=[ov, v], status=[]))
                 try:
@@ -277,7 +294,8 @@ def cli_check(st, pat):
             if ("--patch" in flags and "PATCH" not in pat.names) or ("--minor" in flags and "MINOR" not in pat.names):
                 continue
             world.clear_dir(".")
-            world.write_tree({"bumpver.toml": CFG.format(v=ov, p=pat.text).encode(), "a.txt": f"ver={ov};\npep={ow};\n".encode()})
+            world.write_tree({"bumpver.toml": CFG.format(v=ov, p=pat.text).encode(), "a.txt": f"ver={ov};\npep={ow};\n".encode(),
+                              "c.txt": f"get/{ov}/demo-{ow}.tgz\n".encode()})
             o = world.cli("update", "--no-fetch", "--ignore-vcs-tag", "--date", "2035-01-01", *flags)
             st.evaluations += 1
             st.transitions += 1
